@@ -52,6 +52,19 @@ def item_xml(it, i, rnd, late_anchor):
         return f'<g transform="translate(3 -2)">{rect}</g>', ""
     if k == "gscale":
         return f'<g transform="scale(2)">{rect}</g>', ""
+    if k == "polyline":
+        return f'<polyline points="{q(x1)},{q(y2)} {q(x1 + w / 2)},{q(y1)} {q(x2)},{q(y2)}" fill="none"/>', ""
+    if k == "path":
+        return f'<path d="M{q(x1)} {q(y1)} L{q(x2)} {q(y1)} l0 {q(h)} H{q(x1)} Z"/>', ""
+    if k == "nestedsvg":
+        return f"<svg>{rect}</svg>", ""
+    if k == "gnested":
+        return f'<g transform="translate(3 -2)"><g transform="scale(2)">{rect}</g></g>', ""
+    if k == "clip":
+        return (f'<defs><clipPath id="cp{i}"><rect x="{q(x1)}" y="{q(y1)}" width="1" height="1"/></clipPath></defs>'
+                f'<rect x="{q(x1)}" y="{q(y1)}" width="{q(w)}" height="{q(h)}" clip-path="url(#cp{i})"/>'), ""
+    if k == "reuse":
+        return f'<specs><rect id="rt{i}" x="{q(x1)}" y="{q(y1)}" width="{q(w)}" height="{q(h)}"/></specs><reuse href="#rt{i}" x="{q(x1 + 80)}" y="{q(y1 + 40)}"/>', ""
     if k in ("usex", "usey", "usexy"):
         off = ('x="20"' if "x" in k[3:] else "") + (' y="-10"' if "y" in k[3:] else "")
         return f'<defs><rect id="ut{i}" x="{q(x1)}" y="{q(y1)}" width="{q(w)}" height="{q(h)}"/></defs><use href="#ut{i}" {off}/>', ""
